@@ -186,8 +186,10 @@ func (a *Application) filterModelsByProvider(ctx context.Context, models []*doma
 		// Models can be available from multiple sources. Check if any of them
 		// match our provider constraint.
 		hasProvider := false
+		resolved := false
 		for _, source := range model.SourceEndpoints {
 			if endpointType, ok := endpointTypes[source.EndpointURL]; ok {
+				resolved = true
 				normalisedType := NormaliseProviderType(endpointType)
 				if providerProfile.IsCompatibleWith(normalisedType) {
 					hasProvider = true
@@ -195,8 +197,10 @@ func (a *Application) filterModelsByProvider(ctx context.Context, models []*doma
 				}
 			}
 		}
-		// Model aliases provide another way to determine provider association
-		if !hasProvider {
+		// Model aliases provide another way to determine provider association, but only when
+		// the sources themselves cannot tell: an alias records where a model was once seen,
+		// not that a healthy endpoint of that provider still serves it
+		if !hasProvider && !resolved {
 			for _, alias := range model.Aliases {
 				normalisedSource := NormaliseProviderType(alias.Source)
 				if providerProfile.IsCompatibleWith(normalisedSource) {
